@@ -119,6 +119,8 @@ class Ctx:
         failed = [o for o in self.obligations if not o.ok]
         violations = []
         known_hit = []
+        from .advisory import ADVISORY
+        advisories = []
         for o in failed:
             for k in known:
                 if k['rule'] == o.rule and k['key'] == o.key:
@@ -126,7 +128,10 @@ class Ctx:
                     known_hit.append((o, k))
                     break
             else:
-                violations.append(o)
+                if (o.rule, o.key) in ADVISORY:
+                    advisories.append(o)
+                else:
+                    violations.append(o)
 
         # evidence / replay files are only (re)written when the real
         # repository is analysed; scratch copies (self-test, seeded runs)
@@ -141,6 +146,11 @@ class Ctx:
         for o, k in known_hit:
             lines.append('KNOWN-FINDING: property={} rule={} key={} :: {}'
                          .format(self.prop, o.rule, o.key, k['what']))
+        for o in advisories:
+            lines.append('  advisory: rule={} instance={} at {} -- {} [not '
+                         'part of the claim: {}]'.format(
+                             o.rule, o.key, o.site or '?', o.detail,
+                             ADVISORY[(o.rule, o.key)]))
         replay = None
         if violations:
             os.makedirs(rp_dir, exist_ok=True)
@@ -198,6 +208,15 @@ class Ctx:
             'classes_indexed': len(self.repo.classes),
             'source_digest': self.repo.digest,
             'notes': self.notes[:80],
+            'advisory_clauses': {
+                'demoted_instances_evaluated': len([
+                    o for o in self.obligations
+                    if (o.rule, o.key) in ADVISORY]),
+                'failing_now': ['{}|{}'.format(o.rule, o.key)
+                                for o in advisories],
+                'meaning': 'clauses listed in sa/advisory.py are evaluated '
+                           'and reported but are not part of the claim',
+            },
         }
         cov.update(self.stats)
         if extra:
